@@ -532,3 +532,89 @@ def _enclosing(node):
     while p is not None and not isinstance(p, ast.FunctionDef):
         p = getattr(p, "_parent", None)
     return p.name if p is not None else "<module>"
+
+
+# ---------------------------------------------------------------------------
+# subspace_indices <-> eigenvector matrices (C14)
+# ---------------------------------------------------------------------------
+
+
+def rule_subspaces_from_indices(rep: Report, repo: Repo):
+    """`subspace_indices` must designate, for block b, the identity columns {k : indices[k] == b} IN INCREASING k,
+    i.e. exactly the eigenvector matrices np.eye(n)[:, indices == b] the property compares with."""
+    R = "E6.indices"
+    f = repo.find("block_diagonalization::_subspaces_from_indices", R)
+    loc = lambda n: repo.loc("block_diagonalization", n)
+    asg = {}
+    for n in own_nodes(f):
+        if isinstance(n, ast.Assign) and isinstance(n.targets[0], ast.Name):
+            asg[n.targets[0].id] = n.value
+    ev = asg.get("eigvecs")
+    ok = ev is not None and "identity(dim" in norm(ev) or (ev is not None and "np.eye(dim" in norm(ev))
+    rep.check(ok, R, "_subspaces_from_indices starts from the identity basis of dimension len(subspace_indices)", norm(ev)[:70] if ev is not None else "missing", loc(f))
+    se = asg.get("subspace_eigenvectors")
+    comp = None
+    if isinstance(se, ast.Call) and call_name(se) == "tuple" and se.args and isinstance(se.args[0], (ast.GeneratorExp, ast.ListComp)):
+        comp = se.args[0]
+    elif isinstance(se, (ast.ListComp, ast.GeneratorExp)):
+        comp = se
+    if comp is None or len(comp.generators) != 1:
+        raise AnalysisError(R, "_subspaces_from_indices: construction of the per-block bases not understood")
+    gen = comp.generators[0]
+    elt = comp.elt
+    if not (isinstance(elt, ast.Subscript) and norm(elt.value) == "eigvecs" and isinstance(elt.slice, ast.Tuple)
+            and len(elt.slice.elts) == 2 and norm(elt.slice.elts[0]) == ":"):
+        raise AnalysisError(R, f"_subspaces_from_indices: block basis `{norm(elt)[:60]}` is not a column selection of the identity")
+    sel = elt.slice.elts[1]
+    var = norm(gen.target)
+
+    def resolve(e, depth=0):
+        while isinstance(e, ast.Name) and e.id in asg and depth < 5:
+            e = asg[e.id]
+            depth += 1
+        return e
+
+    verdict, why = None, ""
+    mask_forms = (f"subspace_indices == {var}", f"{var} == subspace_indices")
+    it = norm(gen.iter)
+    if it in ("range(np.max(subspace_indices) + 1)", "range(subspace_indices.max() + 1)", "range(max(subspace_indices) + 1)"):
+        s = sel
+        txt = norm(s)
+        ordered = {f"np.compress({m}, np.arange(dim))" for m in mask_forms} | {f"np.flatnonzero({m})" for m in mask_forms} | \
+            {f"np.where({m})[0]" for m in mask_forms} | {f"np.nonzero({m})[0]" for m in mask_forms} | set(mask_forms) | \
+            {f"({m}).nonzero()[0]" for m in mask_forms}
+        if txt in ordered:
+            verdict, why = True, f"columns `{txt}`: positions with label {var}, in increasing order; blocks 0 .. max label"
+        else:
+            verdict, why = None, f"selection `{txt}` not understood"
+    elif isinstance(gen.iter, ast.Call) and call_name(gen.iter) == "np.split" and len(gen.iter.args) == 2 and norm(sel) == var:
+        order, ends = resolve(gen.iter.args[0]), resolve(gen.iter.args[1])
+        ends_ok = norm(ends) in ("np.cumsum(np.bincount(subspace_indices))[:-1]",)
+        if isinstance(order, ast.Call) and call_name(order) == "np.argsort" and order.args and norm(order.args[0]) == "subspace_indices":
+            kind = {k.arg: norm(k.value) for k in order.keywords}.get("kind")
+            if not ends_ok:
+                verdict, why = None, f"split points `{norm(ends)}` not understood"
+            elif kind in ("'stable'", "'mergesort'"):
+                verdict, why = True, "stable argsort of the labels split at the cumulative block sizes"
+            else:
+                verdict, why = False, ("np.argsort without kind='stable' does not keep states with equal labels in their given order: "
+                                       "the columns inside a block come out permuted, so block (i, j) is no longer L_i^H A R_j for the "
+                                       "eigenvector matrices np.eye(n)[:, labels == b]")
+        else:
+            verdict, why = None, f"ordering `{norm(order)[:60]}` not understood"
+    else:
+        verdict, why = None, f"iteration `{it[:60]}` not understood"
+    if verdict is None:
+        raise AnalysisError(R, "_subspaces_from_indices: " + why)
+    if verdict:
+        rep.ok(R, "_subspaces_from_indices: block b = identity columns {k : subspace_indices[k] == b} in increasing k", why, loc(se))
+    else:
+        rep.fail(R, f"_subspaces_from_indices does not keep the states of a block in their given order: `{norm(se)[:90]}`", why, loc(se))
+    sym = [n for n in own_nodes(f) if isinstance(n, ast.If) and norm(n.test) == "symbolic"]
+    ok = len(sym) == 1 and norm(sym[0].body[0]) == "return tuple((subspace.toarray() for subspace in subspace_eigenvectors))"
+    rep.check(ok, R, "_subspaces_from_indices: symbolic problems get the same bases as dense arrays", "", loc(f))
+    # the caller uses these bases as both left and right vectors
+    otb = repo.find("block_diagonalization::operator_to_BlockSeries", R)
+    call = [n for n in own_nodes(otb) if isinstance(n, ast.Assign) and isinstance(n.value, ast.Call) and call_name(n.value) == "_subspaces_from_indices"]
+    ok = len(call) == 1 and norm(call[0].targets[0]) == "subspace_eigenvectors" and norm(call[0].value.args[0]) == "subspace_indices"
+    rep.check(ok, R, "operator_to_BlockSeries turns subspace_indices into subspace_eigenvectors and projects with them", "", loc(otb))
